@@ -19,6 +19,7 @@ type Op struct {
 	ID       int    `json:"id,omitempty"`        // message id (send), assigned by Normalize
 	Panic    bool   `json:"panic,omitempty"`     // (send) Receive panics on this message
 	Internal bool   `json:"internal,omitempty"`  // (send+panic) the panic value is an *actor.InternalError: restart without touching the budget
+	PanicVal int    `json:"panic_val,omitempty"` // (send+panic) what is thrown: 0 string, 1 error, 2 []string, 3 map, 4 struct holding a slice, 5 nil
 	GateNext bool   `json:"gate_next,omitempty"` // (send+panic) the next incarnation blocks in Started until `release`
 	From     int    `json:"from,omitempty"`      // (send) 0 = no sender, 1..3 = sender pool
 	N        int    `json:"n,omitempty"`         // (send) repeat count > 1: a burst of plain messages
